@@ -135,6 +135,10 @@ def observe(f, r):
 def gen_case(rng, depth):
     t = gen_tree(rng, depth)
     r = fc.grid(rng, 1.0, 4.0)
+    if rng.random() < 0.15:
+        # a factor / summand that is exactly zero at r while its slope is not (a node of the potential at the evaluated separation)
+        node = {'op': 'leaf', 'form': 'polynomial', 'params': [-r, 1.0], 'kind': rng.choice(['full', 'full', 'd1'])}
+        t = {'op': rng.choice(['product', 'product', 'plus']), 'a': node, 'b': t} if rng.random() < 0.5 else {'op': rng.choice(['product', 'product', 'plus']), 'a': t, 'b': node}
     return {'tree': t, 'r': r, 'route': rng.choice(['api', 'api', 'potable'])}
 
 def gen_multi_case(rng):
